@@ -137,9 +137,15 @@ public:
    ///    The name of the attribute.
    /// @param[in]  value
    ///    The value for the attribute.
+   /// @return
+   ///    The id of the new attribute entry, can be used to remove exactly this
+   ///    entry again with removeAttributeEntry().
+   /// @since
+   ///    1.47.0, 30.09.2026  (returns the id of the entry)
    /// @since
    ///    1.15.0, 10.10.2018
-   void addAttribute( const std::string& name, const std::string& value);
+   detail::LogAttributesContainer::attr_id_t
+      addAttribute( const std::string& name, const std::string& value);
 
    /// Returns the value for an attribute.
    /// If multiple attributes with the same name exist, the values of the last
@@ -159,6 +165,17 @@ public:
    /// @param[in]  attr_name  The name of the attribute to remove.
    /// @since  1.15.0, 11.10.2018
    void removeAttribute( const std::string& attr_name);
+
+   /// Removes exactly the attribute entry with the given id.<br>
+   /// Used by scoped attributes: The end of a scope must remove the entry that
+   /// was added at the beginning of this scope, not another attribute with the
+   /// same name that was added in the meantime.
+   ///
+   /// @param[in]  attr_id
+   ///    The id of the entry to remove, as returned by addAttribute().
+   /// @since  1.47.0, 30.09.2026
+   void removeAttributeEntry(
+      detail::LogAttributesContainer::attr_id_t attr_id);
 
    /// Dumps information about the logging framework.
    ///
